@@ -312,6 +312,24 @@ func (s *OuterJoin) receiveRecord(ctx ExecutionContext, produce ProduceFn, myRec
 		}
 		key[i] = value
 	}
+	for i := range key {
+		if key[i].TypeID == octosql.TypeIDNull {
+			// Keys come from equality predicates, and SQL equality never matches NULL:
+			// the record stays unmatched forever, so it is only ever visible as a NULL-padded row.
+			if (s.isOuterLeft && amLeft) || (s.isOuterRight && !amLeft) {
+				outputValues := make([]octosql.Value, s.leftFieldCount+s.rightFieldCount)
+				if amLeft {
+					copy(outputValues, record.Values)
+				} else {
+					copy(outputValues[s.leftFieldCount:], record.Values)
+				}
+				if err := produce(ProduceFromExecutionContext(ctx), NewRecord(outputValues, record.Retraction, record.EventTime)); err != nil {
+					return fmt.Errorf("couldn't produce: %w", err)
+				}
+			}
+			return nil
+		}
+	}
 
 	firstRecordForThatKeyOnThisSide := false
 	lastRetractionForThatKeyOnThisSide := false
